@@ -124,7 +124,7 @@ def natsJson (l : List Nat) : Json := Json.arr (l.map (fun (n : Nat) => (n : Jso
 def step (j : Json) : Json :=
   match getStr j "op" with
   | "gen" =>
-    let I := getIState j
+    let I := (getIState j).addMethodFaults F07
     let e := getEnum j
     let tiers := match topo F07 e I.reprKey I.deps with
       | .ok ts => arrJson natsJson ts
